@@ -18,6 +18,7 @@ PROFILES = {
     "reuse":      dict(w=dict(set=45, get=50, synth=2, setcell=0, setlru=1, evict=2), p_dur=0.1, p_cell=0.0, p_never=0.0, p_cyclic=0.0, restore=0.5),
     "untracked":  dict(w=dict(set=20, get=45, synth=10, setcell=25, setlru=0, evict=0), p_dur=0.3, p_cell=0.6, p_never=0.0, p_cyclic=0.0, idur=True),
     "lru":        dict(w=dict(set=20, get=55, synth=5, setcell=3, setlru=8, evict=9), p_dur=0.1, p_cell=0.1, p_never=0.0, p_cyclic=0.0, lru_heavy=True),
+    "faults":     dict(w=dict(set=25, get=45, synth=4, setcell=3, setlru=2, evict=3, setpanic=18), p_dur=0.1, p_cell=0.1, p_never=0.0, p_cyclic=0.0, p_fault=0.35),
     "panic-cycles": dict(w=dict(set=40, get=50, synth=3, setcell=3, setlru=2, evict=2), p_dur=0.1, p_cell=0.05, p_never=0.0, p_cyclic=1.0),
 }
 
@@ -36,6 +37,14 @@ class Gen:
         self.size = size
 
     def expr(self, depth, ctx):
+        e = self.expr0(depth, ctx)
+        pf = self.p.get("p_fault", 0.0)
+        if pf and self.r.random() < pf * 0.5:
+            pi = ["panicif", self.r.randrange(4)]
+            return ["op", "add", e, pi] if self.r.random() < 0.5 else ["op", "add", pi, e]
+        return e
+
+    def expr0(self, depth, ctx):
         r = self.r
         nk, ni = ctx["nk"], ctx["ni"]
         leaf = depth <= 0 or r.random() < 0.25
@@ -145,6 +154,15 @@ class Gen:
                 hist.append(["setlru", 1, r.choice([0, 1, 1, 2, 3, 4])])
             elif k == "evict":
                 hist.append(["evict"])
+            elif k == "setpanic":
+                hist.append(["setpanic", r.randrange(4), r.choice([0, 1, 1])])
+        if p.get("p_fault"):
+            # the faults stop: afterwards every node is requested (C22: results as a fresh database)
+            for c in range(4):
+                hist.append(["setpanic", c, 0])
+            for fam in range(3):
+                for k in range(nk):
+                    hist.append(["get", fam, k])
         # make sure every case reads something at the end
         hist.append(["get", r.randrange(3), r.randrange(nk)])
         return sx(["case", cid, ["cfg", ["nk", nk], ["ni", ni], ["nf", 3], ["nfam", 3], ["lru", 1, 2]],
@@ -238,7 +256,7 @@ def compare_case(impl_lines, model_lines):
     n = max(len(a["R"]), len(b["R"]))
     for i in range(n):
         # implementation vs proved specification, on values
-        if i in b["V"]:
+        if i in b["V"] and b["R"].get(i) not in ("panic 5",):
             spec = b["V"][i]
             got = a["R"].get(i)
             want = "panic 2" if spec == "cycle" else spec
@@ -295,6 +313,8 @@ def classify(model_lines):
             feats.add("never_change_panic")
         if d["R"][i].startswith("panic 2"):
             feats.add("cycle_panic")
+        if d["R"][i].startswith("panic 5"):
+            feats.add("injected_panic")
         prev_memo = memos
     nontrivial = "reexec" in feats and "validate" in feats
     return feats, nontrivial
